@@ -5,7 +5,7 @@
    Executable Gallina only; no proofs in this file. *)
 From Coq Require Import List ZArith Bool String Ascii Arith.
 Import ListNotations.
-Open Scope Z_scope.
+Local Open Scope Z_scope.
 
 (* ------------------------------------------------------------------ *)
 (** * 1. LoopIR fragment *)
@@ -450,25 +450,31 @@ Definition node_blocks (n : node) : list (attr * list node) :=
   | _ => []
   end.
 
-(* find_stmts_in_block(pats, curs) where curs = Block(anchor, a, range(k, k + len blk)) *)
+(* find_stmts_in_block(pats, curs) where curs = Block(anchor, a, range(k, k + len blk)).
+   [rec] is the recursive call on a sub-block curs[0].body() / curs[0].orelse() (one nesting level deeper). *)
+Section FindBlockLoop.
+  Context (rec : fstate -> path -> attr -> list node -> fstate).
+  Context (q : quirks) (pats : list pstmt) (anchor : path) (a : attr).
+  Fixpoint find_block_loop (st : fstate) (k : nat) (blk : list node) {struct blk} : fstate :=
+    match blk with
+    | [] => st                                                         (* len(curs) == 0 *)
+    | n :: rest =>
+        if f_done st then st else
+        let st1 := match match_stmts_nodes q pats blk with               (* match a prefix of curs *)
+                   | Some j => add_result st (CBlock anchor a (Z.of_nat k) (Z.of_nat (k + j)))
+                   | None => st end in
+        let st2 := fold_left (fun st' ab => rec st' (anchor ++ [(a, Some k)]) (fst ab) (snd ab))
+                             (node_blocks n) st1 in                      (* curs[0].body(), curs[0].orelse() *)
+        find_block_loop st2 (S k) rest                                   (* curs[1:] *)
+    end.
+End FindBlockLoop.
+
 Fixpoint find_block_f (fuel : nat) (q : quirks) (pats : list pstmt) (st : fstate)
          (anchor : path) (a : attr) (k : nat) (blk : list node) : fstate :=
   match fuel with
   | O => st
   | S f =>
-      (fix go (st : fstate) (k : nat) (blk : list node) {struct blk} : fstate :=
-         match blk with
-         | [] => st                                                         (* len(curs) == 0 *)
-         | n :: rest =>
-             if f_done st then st else
-             let st1 := match match_stmts_nodes q pats blk with
-                        | Some j => add_result st (CBlock anchor a (Z.of_nat k) (Z.of_nat (k + j)))
-                        | None => st end in
-             let st2 := fold_left (fun st' ab =>
-                                     find_block_f f q pats st' (anchor ++ [(a, Some k)]) (fst ab) 0%nat (snd ab))
-                                  (node_blocks n) st1 in
-             go st2 (S k) rest
-         end) st k blk
+      find_block_loop (fun st' an a' b => find_block_f f q pats st' an a' 0%nat b) q pats anchor a st k blk
   end.
 
 Inductive err :=
@@ -534,23 +540,29 @@ Definition find_expr_all (q : quirks) (pat : pexpr) (p : path) (n : node) : list
   map (fun pn => CNode (fst pn)) (filter (fun pn => match_e_node q pat (snd pn)) (preorder p n)).
 
 (* every statement position (anchor, attr, k, suffix of the block starting at k), in program order *)
+Definition blockpos : Type := path * attr * nat * list node.
+
+Section BlockPosLoop.
+  Context (rec : path -> attr -> list node -> list blockpos).
+  Context (anchor : path) (a : attr).
+  Fixpoint block_positions_loop (k : nat) (blk : list node) {struct blk} : list blockpos :=
+    match blk with
+    | [] => []
+    | n :: rest =>
+        (anchor, a, k, blk)
+          :: flat_map (fun ab => rec (anchor ++ [(a, Some k)]) (fst ab) (snd ab)) (node_blocks n)
+          ++ block_positions_loop (S k) rest
+    end.
+End BlockPosLoop.
+
 Fixpoint block_positions_f (fuel : nat) (anchor : path) (a : attr) (k : nat) (blk : list node)
-  : list (path * attr * nat * list node) :=
+  : list blockpos :=
   match fuel with
   | O => []
-  | S f =>
-      (fix go (k : nat) (blk : list node) {struct blk} :=
-         match blk with
-         | [] => []
-         | n :: rest =>
-             (anchor, a, k, blk)
-               :: flat_map (fun ab => block_positions_f f (anchor ++ [(a, Some k)]) (fst ab) 0%nat (snd ab))
-                           (node_blocks n)
-               ++ go (S k) rest
-         end) k blk
+  | S f => block_positions_loop (fun an a' b => block_positions_f f an a' 0%nat b) anchor a k blk
   end.
 
-Definition head_match (q : quirks) (pats : list pstmt) (pos : path * attr * nat * list node) : list cursor :=
+Definition head_match (q : quirks) (pats : list pstmt) (pos : blockpos) : list cursor :=
   match pos with
   | (anchor, a, k, blk) =>
       match match_stmts_nodes q pats blk with
